@@ -210,7 +210,7 @@ impl Sys {
         for (bits, ent) in handles {
             let a = match arch_of_id((bits.0 & 0xff) as u8) {
                 Some(a) => a,
-                None => return vio!("C14", "issued-handle-unknown-archetype", "issued handle {:?} carries an undeclared archetype id", bits),
+                None => return vio!("C01,C14", "issued-handle-unknown-archetype", "issued handle {:?} carries an undeclared archetype id", bits),
             };
             with_arch!(a, A => self.probe_handle::<A>(w, bits, ent))?;
         }
@@ -220,7 +220,7 @@ impl Sys {
     fn probe_handle<A: Arch>(&mut self, w: usize, bits: Bits, ent: Option<MEnt>) -> R {
         let any = match EntityAny::from_raw(bits) {
             Ok(x) => x,
-            Err(_) => return vio!("C14", "from-raw-rejects-issued", "from_raw rejects the bits {:?} of an issued handle", bits),
+            Err(_) => return vio!("C01,C14", "from-raw-rejects-issued", "from_raw rejects the bits {:?} of an issued handle", bits),
         };
         let live = ent.is_some();
         if !live {
@@ -352,11 +352,11 @@ impl Sys {
                 }
             }
         }
-        for qf in 0..N_QFORMS {
+        for qf in 0..N_QFORMS_ITER {
             let archs: Vec<usize> = (0..NARCH).filter(|a| qform_matches(qf, *a)).collect();
             let n: usize = archs.iter().map(|a| self.models[w].order[*a].len()).sum();
             for borrow in [false, true] {
-                let what = format!("{} {}", if borrow { "ecs_iter_borrow!" } else { "ecs_iter!" }, QFORM_NAMES[qf as usize]);
+                let what = format!("{} {}", if borrow { "ecs_iter_borrow!" } else { "ecs_iter!" }, QFORM_ITER_NAMES[qf as usize]);
                 let world = self.worlds[w].as_mut().unwrap();
                 let rows = guard("C06", &what, || Ok(wq_iter(world, qf, borrow, None)))?;
                 self.check_rows(w, &rows, &archs, &what, "C06", false)?;
@@ -394,7 +394,7 @@ impl Sys {
                     guard("C02", WRITE_PATH_NAMES[wp as usize], || Ok(<A as Arch>::write(world, key, wp, ent.uid, &nv)))?
                 });
                 self.c.writes += 1;
-                ensure!(ok, "C01", "live-handle-rejected:write", "{} rejected live uid {}", WRITE_PATH_NAMES[wp as usize], ent.uid);
+                ensure!(ok, "C02,C01", "live-handle-rejected:write", "{} rejected live uid {}", WRITE_PATH_NAMES[wp as usize], ent.uid);
                 self.models[w].live.get_mut(&ent.any.raw()).unwrap().vals = nv;
                 with_arch!(ent.arch as usize, A => self.read_all::<A>(w, ent.any, &[(wp % 4)]))?;
                 for a in 0..NARCH {
@@ -430,7 +430,7 @@ impl Sys {
                 let what = format!("{} with {}", READ_PATH_NAMES[path as usize], KEY_KINDS[kind as usize]);
                 let row = match row {
                     Some(r) => r,
-                    None => return vio!("C01", "live-handle-rejected:read", "{} rejected live uid {}", what, ent.uid),
+                    None => return vio!("C02,C01", "live-handle-rejected:read", "{} rejected live uid {}", what, ent.uid),
                 };
                 let ok = row_matches(A::IDX, &row, &exp);
                 ensure!(ok, "C02", "read-wrong-values", "{} returned {:x?} for uid {}, expected {:x?}", what, row.dig, ent.uid, exp);
@@ -497,11 +497,11 @@ impl Sys {
             })?;
             let d0 = match routes[0].1 {
                 Some(d) => d,
-                None => return vio!("C01", "live-handle-rejected:to_direct", "to_direct rejected live uid {}", ent.uid),
+                None => return vio!("C09,C01", "live-handle-rejected:to_direct", "to_direct rejected live uid {}", ent.uid),
             };
             let td0 = match EntityDirect::<A>::try_from(d0) {
                 Ok(t) => t,
-                Err(_) => return vio!("C14", "direct-handle-wrong-archetype-id", "to_direct of an entity of {} returned {:?}", A::NAME, d0),
+                Err(_) => return vio!("C09,C14", "direct-handle-wrong-archetype-id", "to_direct of an entity of {} returned {:?}", A::NAME, d0),
             };
             guard("C09", "minting a direct handle", || {
                 for key in [Hk::<A>::D(td0), Hk::<A>::DAny(d0)] {
@@ -570,7 +570,7 @@ impl Sys {
                 Some(d) => {
                     minted.insert(bits, d);
                 }
-                None => return vio!("C01", "live-handle-rejected:to_direct", "to_direct rejected live handle {:?}", any),
+                None => return vio!("C09,C01", "live-handle-rejected:to_direct", "to_direct rejected live handle {:?}", any),
             }
         }
         let vals: Vec<EntityDirectAny> = minted.values().cloned().collect();
@@ -768,13 +768,13 @@ impl Sys {
         if let Ok(e) = Entity::<A>::try_from(any) {
             keys.push(("try_from", Hk::E(e), false));
         }
-        ensure!(Entity::<A>::try_from(any).is_ok() == byte_matches, "C14", "typed-conversion", "Entity::<{}>::try_from({:?}) is_ok = {}", A::NAME, any, !byte_matches);
+        ensure!(Entity::<A>::try_from(any).is_ok() == byte_matches, "C14,C03", "typed-conversion", "Entity::<{}>::try_from({:?}) is_ok = {}", A::NAME, any, !byte_matches);
         match catch_unwind(|| Entity::<A>::from_any(any)) {
             Ok(e) => {
-                ensure!(byte_matches, "C14", "from-any-accepts-mismatch", "Entity::<{}>::from_any({:?}) did not panic", A::NAME, any);
+                ensure!(byte_matches, "C14,C03", "from-any-accepts-mismatch", "Entity::<{}>::from_any({:?}) did not panic", A::NAME, any);
                 keys.push(("from_any", Hk::E(e), false));
             }
-            Err(_) => ensure!(!byte_matches, "C14", "from-any-panics-on-match", "Entity::<{}>::from_any({:?}) panicked", A::NAME, any),
+            Err(_) => ensure!(!byte_matches, "C14,C03", "from-any-panics-on-match", "Entity::<{}>::from_any({:?}) panicked", A::NAME, any),
         }
         if let Ok(e) = catch_unwind(|| Entity::<A>::from_any_unchecked(any)) {
             keys.push(("from_any_unchecked", Hk::E(e), !byte_matches));
@@ -799,14 +799,14 @@ impl Sys {
                 };
                 match &r.look {
                     Look::Panicked(msg) => {
-                        ensure!(legit.is_none(), "C01", "unexpected-panic:lookup", "lookup of live handle {:?} via {} through {} panicked: {}", any, label, r.path, msg);
+                        ensure!(legit.is_none(), "C03,C01", "unexpected-panic:lookup", "lookup of live handle {:?} via {} through {} panicked: {}", any, label, r.path, msg);
                         self.c.forged_clean_panics += 1;
                     }
                     Look::Rejected => {
                         if let Some(e) = legit {
                             // world-level typed macros restricted to A legitimately skip entities of other archetypes
                             if e.arch as usize == A::IDX {
-                                return vio!("C01", "live-handle-rejected:forged-identical", "value {:?} ({}) is bit-identical to the live handle of uid {} but is rejected by {}", any, label, e.uid, r.path);
+                                return vio!("C03,C01", "live-handle-rejected:forged-identical", "value {:?} ({}) is bit-identical to the live handle of uid {} but is rejected by {}", any, label, e.uid, r.path);
                             }
                         }
                     }
